@@ -103,16 +103,20 @@ pub fn p_deser<T: serde::de::DeserializeOwned + serde::Serialize>(case: u64, pro
     emit(ev);
 }
 
-fn same<T: serde::Serialize>(a: &Option<T>, b: &Option<T>) -> bool {
+/// same value: equal on the wire and equal under Debug (two variants of an untagged enum can
+/// serialise identically, Debug tells them apart; every generated type derives Debug)
+fn same<T: serde::Serialize + std::fmt::Debug>(a: &Option<T>, b: &Option<T>) -> bool {
     match (a, b) {
-        (Some(x), Some(y)) => serde_json::to_value(x).ok() == serde_json::to_value(y).ok(),
+        (Some(x), Some(y)) => {
+            serde_json::to_value(x).ok() == serde_json::to_value(y).ok() && format!("{:?}", x) == format!("{:?}", y)
+        }
         _ => true,
     }
 }
 
 /// string conversions next to serde on one probe string
 #[allow(clippy::too_many_arguments)]
-pub fn p_str<T: serde::de::DeserializeOwned + serde::Serialize>(
+pub fn p_str<T: serde::de::DeserializeOwned + serde::Serialize + std::fmt::Debug>(
     case: u64, probe: u64, s: &str,
     fromstr: Option<&dyn Fn(&str) -> Option<T>>,
     tf_str: Option<&dyn Fn(&str) -> Option<T>>,
@@ -201,6 +205,26 @@ pub struct ReplT {
 #[serde(transparent)]
 pub struct Num(pub f64);
 impl std::fmt::Display for Num {
+    fn fmt(&self, f: &mut std::fmt::Formatter<'_>) -> std::fmt::Result {
+        self.0.fmt(f)
+    }
+}
+
+/// A string-like external type that implements FromStr but not Display (C17 conversions).
+#[derive(Clone, Debug, PartialEq, serde::Serialize, serde::Deserialize)]
+#[serde(transparent)]
+pub struct PathLike(pub String);
+impl std::str::FromStr for PathLike {
+    type Err = std::convert::Infallible;
+    fn from_str(s: &str) -> Result<Self, Self::Err> {
+        Ok(PathLike(s.to_string()))
+    }
+}
+/// ... and one with Display but not FromStr
+#[derive(Clone, Debug, PartialEq, serde::Serialize, serde::Deserialize)]
+#[serde(transparent)]
+pub struct ShowOnly(pub String);
+impl std::fmt::Display for ShowOnly {
     fn fmt(&self, f: &mut std::fmt::Formatter<'_>) -> std::fmt::Result {
         self.0.fmt(f)
     }
